@@ -171,6 +171,9 @@ fn put_dec(out: &mut [u8; 16], at: usize, v: u8) -> usize {
     at + 1
 }
 /// dotted-quad text (the textual form the readers hand on as "address")
+pub(crate) fn dotted_text(ip: [u8; 4]) -> ([u8; 16], usize) {
+    dotted(ip)
+}
 fn dotted(ip: [u8; 4]) -> ([u8; 16], usize) {
     let mut out = [0u8; 16];
     let mut n = put_dec(&mut out, 0, ip[0]);
@@ -181,6 +184,9 @@ fn dotted(ip: [u8; 4]) -> ([u8; 16], usize) {
     out[n] = b'.';
     n = put_dec(&mut out, n + 1, ip[3]);
     (out, n)
+}
+pub(crate) fn same_bytes(v: &[u8], exp: &[u8], n: usize) -> bool {
+    same(v, exp, n)
 }
 fn same(v: &[u8], exp: &[u8], n: usize) -> bool {
     if v.len() != n {
@@ -369,9 +375,11 @@ fn s4_ip<const U: usize>(chunk: usize, stall: bool) {
     let mut data: [u8; CAP] = kani::any();
     // a plain SOCKS4 request: anything but 0.0.0.x with x != 0
     kani::assume(!(data[3] == 0 && data[4] == 0 && data[5] == 0 && data[6] != 0));
+    // the bytes scanned for the NUL are concrete: a symbolic byte compared with the delimiter forks
+    // the symbolic execution at every position (the NUL positions are the structure under test)
     let mut i = 0;
     while i < U {
-        kani::assume(data[7 + i] != 0);
+        data[7 + i] = b'u';
         i += 1;
     }
     data[7 + U] = 0;
@@ -398,14 +406,14 @@ fn s4a_domain<const U: usize, const D: usize>(chunk: usize, stall: bool) {
     kani::assume(data[6] != 0);
     let mut i = 0;
     while i < U {
-        kani::assume(data[7 + i] != 0);
+        data[7 + i] = b'u';
         i += 1;
     }
     data[7 + U] = 0;
     let d0 = 8 + U;
     i = 0;
     while i < D {
-        kani::assume(data[d0 + i] != 0);
+        data[d0 + i] = b'a' + i as u8;
         i += 1;
     }
     data[d0 + D] = 0;
@@ -435,7 +443,8 @@ fn s4_truncated_in_userid() {
     } else {
         kani::assume(data[3] != 0);
     }
-    kani::assume(data[7] != 0 && data[8] != 0);
+    data[7] = b'u';
+    data[8] = b'v';
     let mut s = Script::new(data, 9, 4, false); // ... 'u' 'v' EOF
     let r = run(v4::read_request(&mut s), 2);
     assert!(!matches!(&r, Some(Ok(_))), "C18.s4.truncated.userid: end-of-file before the NUL of USERID is a truncated request, not a valid one");
@@ -451,7 +460,8 @@ fn s4a_truncated_in_domain() {
     data[7] = b'u';
     data[8] = 0;
     let none: bool = kani::any();
-    kani::assume(data[9] != 0 && data[10] != 0);
+    data[9] = b'h';
+    data[10] = b'o';
     let mut s = Script::new(data, if none { 9 } else { 11 }, 4, false); // domain absent, or 'h' 'o' EOF
     let r = run(v4::read_request(&mut s), 2);
     assert!(!matches!(&r, Some(Ok(_))), "C18.s4a.truncated.domain: end-of-file before the NUL of the domain name is a truncated request");
